@@ -42,6 +42,8 @@ pub fn c20(rep: &mut Report, n: usize, seed: u64) {
             let l = rng.below(8);
             let hay: String = (0..l).map(|_| char::from_u32(*rng.pick(ALPHA)).unwrap()).collect();
             let label = format!("/{}/{} on {:?}", pat, flags, hay);
+            let label2 = label.clone();
+            let mut body = || {
             let ms: Vec<(usize, usize)> = re.find_iter(&hay).map(|m| (m.start(), m.end())).collect();
             let bounds = boundaries(&hay);
             // find_from table at every boundary
@@ -175,6 +177,13 @@ pub fn c20(rep: &mut Report, n: usize, seed: u64) {
             gotrs.reverse();
             if gotrs != pieces {
                 rep.violation("impl-vs-spec:C20", format!("str::rsplit {:?} vs {:?}", gotrs, pieces), label.clone());
+            }
+            };
+            // a panic anywhere in the searcher or in std's adapters over it is a contract violation with this input
+            let r = guarded(std::panic::AssertUnwindSafe(&mut body));
+            drop(body);
+            if let Err(m) = r {
+                rep.violation("panic:C20", format!("searcher panicked: {}", m), label2);
             }
         }
     }
